@@ -354,6 +354,8 @@ pub struct NodeSys {
     pub persona: Vec<VoteSpec>,
     /// Actions executed before the exploration starts (non-initial seed state).
     pub prefix: Vec<u16>,
+    /// Some(P): report only crashes of the node core, under keys of property P (C10).
+    pub crash_focus: Option<&'static str>,
 }
 
 pub struct NodeWorld {
@@ -398,6 +400,7 @@ impl NodeSys {
             byz: None,
             persona: Vec::new(),
             prefix: Vec::new(),
+            crash_focus: None,
         }
     }
 
@@ -725,12 +728,21 @@ impl Sys for NodeSys {
                 out.fatal = true;
                 return out;
             }
-            out.push(
-                format!("C05:panic:{}", crate::engine::panic_class(&msg)),
-                format!("node core panicked: {msg}"),
-            );
+            match self.crash_focus {
+                Some(p) => out.push(
+                    format!("{p}:node-core-panicked:{}", crate::engine::panic_class(&msg)),
+                    format!("the voting core of a correct node panicked (its task would be gone for good): {msg}"),
+                ),
+                None => out.push(
+                    format!("C05:panic:{}", crate::engine::panic_class(&msg)),
+                    format!("node core panicked: {msg}"),
+                ),
+            }
             out.fatal = true;
             return out;
+        }
+        if self.crash_focus.is_some() {
+            out.violations.clear();
         }
         if !out.violations.is_empty() {
             out.fatal = true;
